@@ -11,7 +11,7 @@ WT=$(mktemp -d /tmp/wt_seed_XXXX); rmdir "$WT"
 git -C /repo worktree add -q --detach "$WT" HEAD >/dev/null 2>&1
 SC=$(mktemp -d /tmp/seed_ev_XXXX)
 trap 'git -C /repo worktree remove --force "$WT" >/dev/null 2>&1; rm -rf "$SC"' EXIT
-run_demo() { ( cd "$SC" && PYTHONDONTWRITEBYTECODE=1 PYTHONPATH="$WT/src:/tmp/seedkit/shims" timeout 600 /venv/bin/python "$D/demo.py" >"$SC/demo.$1.log" 2>&1; echo $? ); }
+run_demo() { ( cd "$SC" && PYTHONDONTWRITEBYTECODE=1 PYTHONPATH="$WT/src:$V/seeded/_kit/shims" timeout 600 /venv/bin/python "$D/demo.py" >"$SC/demo.$1.log" 2>&1; echo $? ); }
 ORIG=$(run_demo orig)
 if ! git -C "$WT" apply "$D/patch.diff"; then echo "PATCH DOES NOT APPLY"; exit 2; fi
 MUT=$(run_demo mut)
